@@ -11,7 +11,7 @@ LOG=/tmp/mut/$ID.$X.confirm.log
 cd $WT || exit 2
 git checkout -q -- . 
 echo "== unchanged: demo" >> $LOG
-(cargo build --offline -q 2>>$LOG; sh $D/run.sh >> $LOG 2>&1); base=$?
+(cargo build --offline -q 2>>$LOG; bash $D/run.sh >> $LOG 2>&1); base=$?
 git apply $P || { echo "patch does not apply" >> $LOG; echo "$ID.$X apply-failed"; exit 1; }
 echo "== patched: build" >> $LOG
 cargo build --offline -q 2>>$LOG; build=$?
@@ -19,6 +19,6 @@ echo "== patched: tests" >> $LOG
 cargo test --workspace --no-fail-fast --offline > $LOG.tests 2>&1
 passed=$(grep "test result" $LOG.tests | awk '{p+=$4; f+=$6} END {print p" "f}')
 echo "== patched: demo" >> $LOG
-sh $D/run.sh >> $LOG 2>&1; mut=$?
+bash $D/run.sh >> $LOG 2>&1; mut=$?
 git checkout -q -- .
 echo "$ID.$X base_demo_exit=$base build_exit=$build tests(passed failed)=$passed patched_demo_exit=$mut"
